@@ -5,14 +5,22 @@ import TonicModel.Lemmas.RichErrorWire
 import TonicModel.Lemmas.SpecRichError
 import TonicModel.Model.RichErrorTrip
 import TonicModel.Props.C04
+import TonicModel.Lemmas.Utf8Agree
+import TonicModel.Lemmas.RichErrorRetry
 /-
 C20 — rich error details round-trip through a status.  Property theorems only.
 
 Parameters of the theorems in the first part:
 * `P : Prost` with `L : P.Laws WFd WFs` — prost's encode/decode of the ten detail messages and of
   google.rpc.Status, with their round-trip laws;
-* `hdr`, `unhdr` with `hh : ∀ st, unhdr (hdr st) = some st` — the status header encoding
-  (`Status::add_header` / `Status::from_header_map`), which is C04's subject.
+* `hdr`, `unhdr` with `hh : ∀ st, unhdr (hdr st) = some st` — an IDEAL status header encoding:
+  every status (any code number, any message bytes, any metadata) comes back whole.  This is a
+  parameter, not C04's result: the header model of C04 (`Status::add_header` /
+  `Status::from_header_map`) does NOT satisfy `hh` (`C20_header_law_not_met_by_C04_model`: code 17,
+  a non-UTF-8 message, metadata under a reserved name).  The theorems that carry `hh` therefore
+  speak about the details bytes given that the status arrives; the statements through the real
+  header model, without `hh`, are `C20_trip_invisible` and the `*_through_headers` theorems at the
+  end of the file.
 -/
 namespace C20
 open RichError
@@ -105,7 +113,9 @@ theorem C20_decode_total (P : Prost) (b : Bytes) :
 
 `prost : Prost` is the model of prost 0.13's reader/writer on the generated `pb` types
 (`Basic/PbWire` + the field tables of `generated/google_rpc.rs`).  For it the laws are theorems,
-so the only remaining hypothesis of the composed statements is the header round trip. -/
+so the only remaining hypothesis of the composed statements in this section is the ideal header
+round trip `hh` (see the note at the top: C04's header model does not satisfy it; the
+`*_through_headers` theorems below replace it by the header model itself). -/
 
 /-- prost's encoding of each of the ten detail messages decodes back to the same detail: for all
 UTF-8 strings, any number of violations / links / stack entries, metadata maps with distinct
@@ -180,10 +190,31 @@ theorem C20_wire_embedded_status (code : Nat) (msg : Bytes) (ds : List ErrorDeta
 
 end wire
 
+/-- The ideal header law `hh` is NOT what C04's header model provides (for `M = HMap`, writing with
+`Status.addHeader` into an empty map and reading with `readBack` = `Status.fromHeaderMap`): metadata
+under a reserved name does not come back, a code outside 0..16 does not, a non-UTF-8 message does
+not.  So `hh` cannot be discharged by C04; the `*_through_headers` theorems are the ones without it. -/
+theorem C20_header_law_not_met_by_C04_model :
+    let hdr : Status HMap → Option HMap := fun st =>
+      match _root_.Status.addHeader .fixed (toSt st) [] with | .ok h => some h | .error _ => none
+    let unhdr : Option HMap → Option (Status HMap) := fun h =>
+      (h.bind readBack).map fun s => ⟨s.code.num, s.message, s.details, s.metadata⟩
+    (¬ ∀ st, unhdr (hdr st) = some st) ∧
+    (unhdr (hdr ⟨17, [], [], []⟩)).map (·.code) ≠ some 17 ∧
+    (unhdr (hdr ⟨3, [0xff], [], []⟩)).map (·.message) ≠ some [0xff] := by
+  refine ⟨fun h => ?_, by decide, by decide +kernel⟩
+  have := congrArg (Option.map (·.metadata)) (h ⟨3, [0x6d], [], [(Status.GRPC_MESSAGE, [0x78])]⟩)
+  revert this; decide
+
 /-! ## Wire conformance: the independent decoder of `Spec/` reads what tonic-types + prost write -/
 
 /-- The details bytes produced for a list of details are, read by the naive .proto-driven decoder
-of `Spec/RichError` (which shares nothing with the prost model), a google.rpc.Status with the
+of `Spec/RichError` (its varint reader, record cutting, field lookup, type URLs and Duration are
+its own; the ONE thing it shares with the prost model is the UTF-8 validator
+`Basic/Utf8Rust.valid`, which is also the domain predicate — a wrong validator would be a symmetric
+deviation these theorems cannot see; `Utf8Agree.valid_eq` proves it equal to the separately written
+`Utf8.valid`, for which `Utf8.valid_encodeChars` shows every Rust `String` is accepted), a
+google.rpc.Status with the
 outer status' code and message and exactly the attached details — kinds, order and field values.
 A symmetric deviation of writer and reader (swapped field numbers, a misspelt type URL) would
 survive the round-trip theorems but not this one. -/
@@ -235,22 +266,38 @@ theorem C20_retry_new_in_domain (d : Dur) (hn : d.nanos < 1000000000) :
   · simp only [if_true]; decide
 
 /-- Outside the domain (a `RetryInfo { retry_delay }` literal whose seconds exceed `i64::MAX`)
-the delay that comes back is the documented maximum, not the original. -/
+the delay that comes back over the wire — `From<RetryInfo> for pb::RetryInfo`, prost encode, prost
+decode, `From<pb::RetryInfo>` — is the documented maximum, not the original (first conjunct; the
+second is the same fact for the two conversion helpers alone). -/
 theorem C20_retry_out_of_range (s n : Nat) (hs : 9223372036854775807 < s) :
+    prost.decDetail .retryInfo (prost.encDetail (.retryInfo ⟨some ⟨s, n⟩⟩)) =
+      some (.retryInfo ⟨some maxRetryDelay⟩) ∧
     durOfPb (durToPb ⟨s, n⟩) = maxRetryDelay := by
   have : ¬ ((s : Int) ≤ i64Max) := by simp only [i64Max]; omega
-  simp only [durToPb, this, if_false]
-  decide
+  constructor
+  · simp only [prost, ErrorDetail.kind, toPb, Option.map_some, durToPb, this, if_false]
+    decide +kernel
+  · simp only [durToPb, this, if_false]
+    decide
 
 /-- FINDING (pinned tree, before fix-C20-retry-delay-i64-min): a `RetryInfo` whose
-`retry_delay.seconds` is `i64::MIN` — 13 bytes any peer can send — makes
-`From<pb::RetryInfo>` negate `i64::MIN`, which panics when overflow checks are on.  The witness
-is the value field of the `Any`; `some none` = decoded by prost, then panic. -/
+`retry_delay` normalizes to `i64::MIN` seconds — here `seconds = i64::MIN, nanos = 0`, 13 bytes any
+peer can send — makes `From<pb::RetryInfo>` negate `i64::MIN`, which panics when overflow checks
+are on.  The witness is the value field of the `Any`; `some none` = decoded by prost, then panic.
+(`seconds = i64::MIN` on the wire is neither necessary nor sufficient in general: see
+`C20_retry_delay_panic_class`.) -/
 theorem C20_retry_delay_asis_fails :
     retryDelayAsIs [0x0a, 0x0b, 0x08, 0x80, 0x80, 0x80, 0x80, 0x80, 0x80, 0x80, 0x80, 0x80, 0x01] = some none := by
   decide +kernel
 
-/-- The panic happens exactly when the normalized seconds are `i64::MIN` … -/
+/-- Transcription lemma: `durOfPairAsIs` is defined with the branch
+`else if (normalize s n).1 = i64Min then none`, and this reads that branch back (the only added
+fact is `i64Min < 0`); it pins the model's shape.  The class of RAW `(seconds, nanos)` pairs that
+trigger the panic is `C20_retry_delay_panic_class`; that the real conversion panics exactly there
+is what the `raw` corpus cases of the correspondence run (the `normalize` duration table sent
+through RetryInfo: 14 seconds values × 15 nanos values, on the unrepaired tree) establishes.
+
+The panic happens exactly when the normalized seconds are `i64::MIN` … -/
 theorem C20_retry_delay_panic_iff (s n : Int) :
     durOfPairAsIs s n = none ↔ (normalize s n).1 = i64Min := by
   unfold durOfPairAsIs
@@ -259,6 +306,19 @@ theorem C20_retry_delay_panic_iff (s n : Int) :
     · intro h'; cases h'
     · intro h'; omega
   · split <;> simp_all
+
+/-- **The trigger class in terms of what a peer sends.**  For a `seconds` field that is an `i64`
+(any `nanos`): the pinned conversion panics iff `nanos ≤ 0` and `seconds` plus the whole seconds
+carried by `nanos` (`nanos / 10^9`, truncated) is at or below `i64::MIN` — through
+`prost_types::Duration::normalize` (carry, saturation, sign fix-up), not just `seconds == i64::MIN`:
+`(i64::MIN + 1, -10^9)` panics and `(i64::MIN, 5)` does not. -/
+theorem C20_retry_delay_panic_class (s n : Int) (hs : i64Min ≤ s) (hs' : s ≤ i64Max) :
+    (durOfPairAsIs s n = none ↔ (n ≤ 0 ∧ s + n.tdiv nanosPerSec ≤ i64Min)) ∧
+    durOfPairAsIs (-9223372036854775807) (-1000000000) = none ∧
+    durOfPairAsIs (-9223372036854775808) 5 = some ⟨0, 0⟩ := by
+  refine ⟨?_, by decide, by decide⟩
+  rw [C20_retry_delay_panic_iff]
+  exact normalize_fst_min_iff s n hs hs'
 
 /-- … and the repaired conversion differs from the original nowhere else: wherever the original
 returns, the repaired one returns the same delay; where it panicked, the repaired one gives zero
@@ -413,15 +473,17 @@ of details, encode with prost, go through the header model any of these ways, de
 dispatch: the outer code and message are the ones given, `check_error_details_vec` and
 `get_error_details_vec` return the list that was attached (kinds, order, field values), and every
 getter the first detail of its kind.  (`Utf8.valid` and `Utf8Rust.valid` are the two models of
-`str::from_utf8` used by C04 and C20.) -/
+`str::from_utf8` used by C04 and C20; they accept the same strings, `Utf8Agree.valid_eq`, so one
+hypothesis on the message suffices.) -/
 theorem C20_vec_roundtrip_through_headers (t : Trip) (ht : t.wf) (code : Nat) (msg : Bytes)
     (ds : List ErrorDetail) (md : HMap)
-    (hcode : code ≤ 16) (hmsg : Utf8Rust.valid msg = true) (hmsg' : Utf8.valid msg = true)
+    (hcode : code ≤ 16) (hmsg : Utf8Rust.valid msg = true)
     (hwf : ∀ d ∈ ds, Spec.RichError.wfDetail d = true)
     (hsize : (withVec prost code msg ds md).details.length < 18446744073709551616) :
     ∃ st', trip t (toSt (withVec prost code msg ds md)) = some st' ∧ st'.code.num = code ∧ st'.message = msg ∧
       checkVec prost st'.details = some ds ∧ getVec prost st'.details = ds ∧
       ∀ k, getFirst prost k st'.details = Spec.RichError.firstOfKind k ds := by
+  have hmsg' : Utf8.valid msg = true := by rw [Utf8Agree.valid_eq]; exact hmsg
   obtain ⟨st', e, c, m, d⟩ := C20_trip_invisible t (toSt (withVec prost code msg ds md)) hmsg' ht
   obtain ⟨s, hs, _, _, hv, hg⟩ := C20_wire_vec_roundtrip (M := HMap) id some (fun _ => rfl) code msg ds md hcode hmsg hwf hsize
   cases hs
@@ -437,11 +499,12 @@ theorem C20_vec_roundtrip_through_headers (t : Trip) (ht : t.wf) (code : Nat) (m
 /-- The set form likewise. -/
 theorem C20_set_roundtrip_through_headers (t : Trip) (ht : t.wf) (code : Nat) (msg : Bytes)
     (s : ErrorDetails) (md : HMap)
-    (hcode : code ≤ 16) (hmsg : Utf8Rust.valid msg = true) (hmsg' : Utf8.valid msg = true)
+    (hcode : code ≤ 16) (hmsg : Utf8Rust.valid msg = true)
     (hwf : ∀ d ∈ s.toList, Spec.RichError.wfDetail d = true)
     (hsize : (withSet prost code msg s md).details.length < 18446744073709551616) :
     ∃ st', trip t (toSt (withSet prost code msg s md)) = some st' ∧ st'.code.num = code ∧ st'.message = msg ∧
       checkSet prost st'.details = some s ∧ getSet prost st'.details = s := by
+  have hmsg' : Utf8.valid msg = true := by rw [Utf8Agree.valid_eq]; exact hmsg
   obtain ⟨st', e, c, m, d⟩ := C20_trip_invisible t (toSt (withSet prost code msg s md)) hmsg' ht
   obtain ⟨r, hr, _, _, hv, hg⟩ := C20_wire_set_roundtrip (M := HMap) id some (fun _ => rfl) code msg s md hcode hmsg hwf hsize
   cases hr
@@ -449,5 +512,33 @@ theorem C20_set_roundtrip_through_headers (t : Trip) (ht : t.wf) (code : Nat) (m
   · rw [c]; exact code_num ⟨code, by omega⟩
   · rw [d]; exact hv
   · rw [d]; exact hg
+
+/-- **The domain is every Rust `String`**: the UTF-8 predicate of the theorems above
+(`Utf8Rust.valid`, table 3-7 written out) is the same predicate as C04's separately written
+state-machine validator, and accepts the UTF-8 encoding of every list of `Char`s. -/
+theorem C20_utf8_domain :
+    (∀ bs : Bytes, Utf8Rust.valid bs = Utf8.valid bs) ∧
+    (∀ cs : List Char, Utf8Rust.valid (Utf8.encodeString (cs.map Char.toNat)) = true) :=
+  ⟨fun bs => (Utf8Agree.valid_eq bs).symm,
+   fun cs => by rw [← Utf8Agree.valid_eq]; exact Utf8.valid_encodeChars cs⟩
+
+/- Non-vacuity of `C20_vec_roundtrip_through_headers`: a two-byte UTF-8 message, three details
+(a multi-byte localized message, a retry delay, an error info with two metadata entries), user
+metadata under a reserved name, written into the trailers-only block of `Status::into_http`. -/
+example : ∃ st', trip (.add contentTypeGrpc) (toSt (withVec prost 3 [0xc3, 0xa9]
+      [.localizedMessage ⟨[0x65, 0x6e], [0xe2, 0x82, 0xac]⟩, .retryInfo ⟨some ⟨5, 7⟩⟩,
+       .errorInfo ⟨[0x52], [], [([0x6b], [0x31]), ([], [0x32])]⟩]
+      [(Status.GRPC_STATUS, [0x39])])) = some st' ∧ st'.code.num = 3 ∧ st'.message = [0xc3, 0xa9] ∧
+      checkVec prost st'.details = some
+        [.localizedMessage ⟨[0x65, 0x6e], [0xe2, 0x82, 0xac]⟩, .retryInfo ⟨some ⟨5, 7⟩⟩,
+         .errorInfo ⟨[0x52], [], [([0x6b], [0x31]), ([], [0x32])]⟩] ∧
+      getVec prost st'.details =
+        [.localizedMessage ⟨[0x65, 0x6e], [0xe2, 0x82, 0xac]⟩, .retryInfo ⟨some ⟨5, 7⟩⟩,
+         .errorInfo ⟨[0x52], [], [([0x6b], [0x31]), ([], [0x32])]⟩] ∧
+      ∀ k, getFirst prost k st'.details = Spec.RichError.firstOfKind k
+        [.localizedMessage ⟨[0x65, 0x6e], [0xe2, 0x82, 0xac]⟩, .retryInfo ⟨some ⟨5, 7⟩⟩,
+         .errorInfo ⟨[0x52], [], [([0x6b], [0x31]), ([], [0x32])]⟩] :=
+  C20_vec_roundtrip_through_headers (.add contentTypeGrpc) ⟨by decide, by decide⟩ 3 [0xc3, 0xa9] _ _
+    (by decide) (by decide) (by decide) (by decide +kernel)
 
 end C20
